@@ -100,6 +100,8 @@ struct Cfg {
     crlf: bool,
     cap: usize,
     set: bool,
+    /// > 0: mixed use - this many next() calls, then one read_record_set into the reused set, repeated
+    mixed: usize,
 }
 
 /// returns (allocations in the window, capacity changed, policy calls in the window, records measured)
@@ -114,6 +116,64 @@ fn run_cfg(c: &Cfg) -> (u64, bool, usize, u64, String) {
     let mut info = String::new();
     let mut measured = 0u64;
     let (allocs, cap_changed, pol);
+    if c.mixed > 0 {
+        // mixed use: k single reads, then one record-set read, repeated
+        let nrec_mixed = (4 * (rl + 2) + 4) * (c.mixed + per_batch + 1) + 8;
+        let template: Vec<u8> = rec.iter().cloned().cycle().take(rl * nrec_mixed).collect();
+        let data = instantiate(&template);
+        macro_rules! mixed {
+            ($m:ident) => {{
+                use seq_io::$m::{Reader, Record, RecordSet};
+                let mut rdr = Reader::with_capacity(&data[..], c.cap).set_policy(CountPolicy(0));
+                let mut set = RecordSet::default();
+                let mut sink = 0usize;
+                let mut ended = false;
+                let mut cycle = |rdr: &mut Reader<&[u8], CountPolicy>, set: &mut RecordSet, measured: &mut u64, sink: &mut usize, ended: &mut bool| {
+                    for _ in 0..c.mixed {
+                        match rdr.next() {
+                            Some(Ok(r)) => {
+                                *sink += r.head().len() + r.seq().len();
+                                *measured += 1;
+                            }
+                            _ => {
+                                *ended = true;
+                                return;
+                            }
+                        }
+                    }
+                    if !matches!(rdr.read_record_set(set), Some(Ok(()))) {
+                        *ended = true;
+                        return;
+                    }
+                    for r in &*set {
+                        *sink += r.head().len() + r.seq().len();
+                        *measured += 1;
+                    }
+                };
+                let mut warm = 0u64;
+                for _ in 0..rl + 2 {
+                    cycle(&mut rdr, &mut set, &mut warm, &mut sink, &mut ended);
+                }
+                let (cap0, bc0) = (rdr.verif_capacity(), set.buf_capacity());
+                let a = measure(|| {
+                    for _ in 0..3 * (rl + 2) {
+                        if ended {
+                            break;
+                        }
+                        cycle(&mut rdr, &mut set, &mut measured, &mut sink, &mut ended);
+                    }
+                });
+                std::hint::black_box(sink);
+                let changed = rdr.verif_capacity() != cap0 || set.buf_capacity() != bc0 || cap0 != c.cap;
+                (a, changed, rdr.policy().0, format!("reader capacity {} -> {} (initial {}), set buffer capacity {} -> {}", cap0, rdr.verif_capacity(), c.cap, bc0, set.buf_capacity()))
+            }};
+        }
+        let (a, ch, p, i) = match c.format {
+            Format::Fasta => mixed!(fasta),
+            Format::Fastq => mixed!(fastq),
+        };
+        return (a, ch, p, measured, i);
+    }
     match c.format {
         Format::Fasta => {
             use seq_io::fasta::{Reader, Record, RecordSet};
@@ -244,6 +304,7 @@ fn main() {
             crlf: r["crlf"].as_bool().unwrap(),
             cap: r["cap"].as_u64().unwrap() as usize,
             set: r["set"].as_bool().unwrap(),
+            mixed: r["mixed"].as_u64().unwrap_or(0) as usize,
         };
         let a = run_cfg(&c);
         let b = run_cfg(&c);
@@ -267,12 +328,15 @@ fn main() {
                     let mut cap = rl + 1;
                     while cap <= 5 * rl {
                         for set in [false, true] {
-                            cfgs.push(Cfg { format, lines, line_len, crlf, cap, set });
+                            cfgs.push(Cfg { format, lines, line_len, crlf, cap, set, mixed: 0 });
+                        }
+                        for mixed in [1usize, 2, 3, 5] {
+                            cfgs.push(Cfg { format, lines, line_len, crlf, cap, set: true, mixed });
                         }
                         cap += step;
                     }
                     for set in [false, true] {
-                        cfgs.push(Cfg { format, lines, line_len, crlf, cap: 65536, set });
+                        cfgs.push(Cfg { format, lines, line_len, crlf, cap: 65536, set, mixed: 0 });
                     }
                 }
             }
@@ -292,10 +356,10 @@ fn main() {
             let what = if allocs != 0 { "allocation" } else if pol != 0 { "policy-consulted" } else { "capacity-changed" };
             l.violation(Violation {
                 property: "C18".into(),
-                sig: format!("{}|{}|{}", c.format.name(), if c.set { "record-set" } else { "next" }, what),
-                detail: format!("{} records with {} sequence line(s) of {} bytes (crlf {}), capacity {}, {}: {} heap allocations in the measured window of {} records, {} policy calls; {}", c.format.name(), c.lines, c.line_len, c.crlf, c.cap, if c.set { "reused record set" } else { "next()" }, allocs, measured, pol, info),
+                sig: format!("{}|{}|{}", c.format.name(), if c.mixed > 0 { "mixed" } else if c.set { "record-set" } else { "next" }, what),
+                detail: format!("{} records with {} sequence line(s) of {} bytes (crlf {}), capacity {}, {}: {} heap allocations in the measured window of {} records, {} policy calls; {}", c.format.name(), c.lines, c.line_len, c.crlf, c.cap, if c.mixed > 0 { format!("{} x next() then read_record_set, repeated", c.mixed) } else if c.set { "reused record set".to_string() } else { "next()".to_string() }, allocs, measured, pol, info),
                 weight: (c.cap + c.line_len * 1000) as u64,
-                replay: json!({"kind": "alloc", "format": c.format.name(), "lines": c.lines, "line_len": c.line_len, "crlf": c.crlf, "cap": c.cap, "set": c.set}),
+                replay: json!({"kind": "alloc", "format": c.format.name(), "lines": c.lines, "line_len": c.line_len, "crlf": c.crlf, "cap": c.cap, "set": c.set, "mixed": c.mixed}),
             });
         }
         if idx % 211 == 7 && l.samples.len() < 2 {
@@ -307,7 +371,7 @@ fn main() {
         Report {
             property: "C18".into(),
             tier: args[2].clone(),
-            rule: "formats x uniform record shapes (FASTA 1-3 sequence lines, FASTQ) x line lengths x LF/CRLF x EVERY capacity from record length + 1 to 5 record lengths (and 64 KiB) x {next(), read_record_set into one reused set}: warm-up over record length + 2 records / batches (a full period of the batch-size pattern), then 3 further periods measured with a counting global allocator (thread-local window) while all borrowed accessors are called: allocation count must be 0, reader capacity and RecordSet::buf_capacity() unchanged in the window and reader capacity = initial capacity (all records fit), policy never consulted in the whole run; non-trivial = every configuration (all measure > 0 records)".into(),
+            rule: "formats x uniform record shapes (FASTA 1-3 sequence lines, FASTQ) x line lengths x LF/CRLF x EVERY capacity from record length + 1 to 5 record lengths (and 64 KiB) x {next(), read_record_set into one reused set, mixed use: k x next() then one read_record_set for k in 1,2,3,5}: warm-up over record length + 2 records / batches (a full period of the batch-size pattern), then 3 further periods measured with a counting global allocator (thread-local window) while all borrowed accessors are called: allocation count must be 0, reader capacity and RecordSet::buf_capacity() unchanged in the window and reader capacity = initial capacity (all records fit), policy never consulted in the whole run; non-trivial = every configuration (all measure > 0 records)".into(),
             exhaustive: true,
             assumptions: vec!["allocations of the measured thread only; uniform record streams (records of varying shape may legitimately allocate when a slot of a reused set first meets a record with more lines)".into()],
             extra: json!({"states_note": "states = configurations; transitions = records read inside measured windows"}),
